@@ -154,8 +154,8 @@ impl Monitor for C11 {
     }
     fn cases(&self, tier: Tier) -> u64 {
         match tier {
-            Tier::Quick => 30_000,
-            Tier::Thorough => 1_000_000,
+            Tier::Quick => 200_000,
+            Tier::Thorough => 3_000_000,
         }
     }
     fn required_counters(&self) -> Vec<&'static str> {
